@@ -95,9 +95,13 @@ RunResult run_afail(const Plan &p, EventLog &log, RunStats &stats, Progress *pro
         w.profile = (int)p.knob("profile", 0);
         if (prog) w.live_judged = &prog->judged;
         w.armed_step = target;
-        w.force_judged_step = target;
-        w.crash_judged_from = target >= 0 ? target : (1 << 30);
-        w.ledger_judged_from_target = true;
+        // the fault-free counting run (sub -1) only counts requests: whatever deviates there is not caused by a refused
+        // allocation and belongs to another property (the scenario is then not enumerated)
+        bool faulted_run = p.sub > 0;
+        w.force_judged_step = faulted_run ? target : -1;
+        w.crash_judged_from = (faulted_run && target >= 0) ? target : (1 << 30);
+        w.ledger_judged_from_target = faulted_run;
+        if (!faulted_run) w.cfg.fault_mode_counting = true;
         w.arm_fail_k = p.sub > 0 ? (long)p.sub : 0;
         try {
             for (size_t i = 0; i < p.steps.size(); i++) {
@@ -131,7 +135,7 @@ RunResult run_afail(const Plan &p, EventLog &log, RunStats &stats, Progress *pro
                     stats.probes["failed_cleanly"]++;
                 } else if (fired) stats.probes["completed_despite_failure"]++;
             }
-            if (prog) { prog->step = (int)p.steps.size(); prog->judged = 1; }
+            if (prog) { prog->step = (int)p.steps.size(); prog->judged = faulted_run ? 1 : 0; }
             w.finish();
         } catch (Stop &s) {
             rr.outcome = s.o;
